@@ -353,7 +353,7 @@ theorem generalMatch_true (sat : Nat → Bytes → Bool) (r : CRoute) (rest : By
           · simp at h
           · rename_i hpv
             simp only [Prod.mk.injEq, true_and] at h
-            refine ⟨by simpa using hcs, by simpa using hlen, by simpa using hst, by simpa using hpv, h.symm⟩
+            refine ⟨by simpa [expectedSlashes] using hcs, by simpa using hlen, by simpa using hst, by simpa using hpv, h.symm⟩
 
 /-- **Soundness of the compiled matcher**: when `matchAndExtract` accepts a path for the compiled form
 of a parameter route of the vocabulary, the oracle's pattern match succeeds on the same segments, the
